@@ -4,23 +4,26 @@ From ArrRs Require Export Index Axis Broadcast Split.
 Section Reorder.
 Context {T : Type} (dflt : T).
 
-(* the per-axis step of flip on the flat element vector of an array of shape sh:
-   axis 0: reverse the leading slabs; last axis: reverse every lane; inner axis: recurse into the leading slabs *)
-Fixpoint flip_axis (es : list T) (sh : list nat) (ax : nat) : res (list T) :=
+(* the per-axis step shared by flip and roll on the flat element vector of an array of shape sh; `h` is the 1-D
+   rearrangement (reverse / rotate), used on the list of leading slabs (axis 0) or on each lane (last axis):
+   axis 0: rearrange the leading slabs; last axis: rearrange every lane; inner axis: recurse into the leading slabs *)
+Fixpoint axis_apply (h : forall A : Type, list A -> list A) (es : list T) (sh : list nat) (ax : nat) : res (list T) :=
   let* flatten := flat_arr es in
   match ax with
   | 0 =>
     let* parts := split_even dflt flatten (nth 0 sh 0) (Some 0) in
-    Ok (flat_map (@elems T) (rev parts))
+    Ok (flat_map (@elems T) (h _ parts))
   | S ax' =>
     if S ax' =? length sh - 1 then
       let* lanes := split_even dflt flatten (prod (firstn (S ax') sh)) None in
-      Ok (flat_map (fun l => rev (elems l)) lanes)
+      Ok (flat_map (fun l => h _ (elems l)) lanes)
     else
       let* slabs := split_even dflt flatten (nth 0 sh 0) None in
-      let* flipped := mapM (fun s => let* r := reshape s (tl sh) in flip_axis (elems r) (tl sh) ax') slabs in
-      Ok (concat flipped)
+      let* done := mapM (fun s => let* r := reshape s (tl sh) in axis_apply h (elems r) (tl sh) ax') slabs in
+      Ok (concat done)
   end.
+
+Definition flip_axis (es : list T) (sh : list nat) (ax : nat) : res (list T) := axis_apply (@rev) es sh ax.
 
 Definition flip (a : arr T) (axes : option (list Z)) : res (arr T) :=
   match axes with
@@ -46,21 +49,8 @@ Definition rotate {A} (l : list A) (shift : Z) : list A :=
          skipn (n - k) l ++ firstn (n - k) l
   end.
 
-Fixpoint roll_axis (es : list T) (sh : list nat) (ax : nat) (shift : Z) : res (list T) :=
-  let* flatten := flat_arr es in
-  match ax with
-  | 0 =>
-    let* parts := split_even dflt flatten (nth 0 sh 0) (Some 0) in
-    Ok (flat_map (@elems T) (rotate parts shift))
-  | S ax' =>
-    if S ax' =? length sh - 1 then
-      let* lanes := split_even dflt flatten (prod (firstn (S ax') sh)) None in
-      Ok (flat_map (fun l => rotate (elems l) shift) lanes)
-    else
-      let* slabs := split_even dflt flatten (nth 0 sh 0) None in
-      let* rolled := mapM (fun s => let* r := reshape s (tl sh) in roll_axis (elems r) (tl sh) ax' shift) slabs in
-      Ok (concat rolled)
-  end.
+Definition roll_axis (es : list T) (sh : list nat) (ax : nat) (shift : Z) : res (list T) :=
+  axis_apply (fun A l => rotate l shift) es sh ax.
 
 (* shifts accumulated per axis (the HashMap), listed by ascending axis *)
 Definition accumulate_shifts (n : nat) (pairs : list (Z * Z)) : list (nat * Z) :=
